@@ -417,21 +417,31 @@ class Date_Add(Parametrized):
         ]:
             unary_implicit_promotion(operand.data_type, Date)
 
+        # dateadd always yields a date: a Time_Period operand is shifted from its period end date
         if isinstance(operand, Scalar):
             return Scalar(
                 name=operand.name,
-                data_type=operand.data_type,
+                data_type=Date if operand.data_type == TimePeriod else operand.data_type,
                 value=None,
                 nullable=operand.nullable,
             )
         if isinstance(operand, DataComponent):
             return DataComponent(
-                name=operand.name, data_type=operand.data_type, data=None, nullable=operand.nullable
+                name=operand.name,
+                data_type=Date if operand.data_type == TimePeriod else operand.data_type,
+                data=None,
+                nullable=operand.nullable,
             )
 
         if all(comp.data_type not in [Date, TimePeriod] for comp in operand.components.values()):
             raise SemanticError("2-1-19-14", op=cls.op, name=operand.name)
-        return Dataset(name=dataset_name, components=operand.components.copy(), data=None)
+        result_components = {
+            name: Component(name=comp.name, data_type=Date, role=comp.role, nullable=comp.nullable)
+            if comp.role == Role.MEASURE and comp.data_type == TimePeriod
+            else comp
+            for name, comp in operand.components.items()
+        }
+        return Dataset(name=dataset_name, components=result_components, data=None)
 
 
 class SimpleUnaryTime(Operators.Unary):
